@@ -9,7 +9,7 @@ From AL Require Export C12.ModelR.
 Export ListNotations.
 
 Ltac c12_unfold :=
-  cbv [spec_re spec_im spec_c spec_cascade spec_parallel spec_steady spec_dft rsum cis
+  cbv [spec_re spec_im spec_c spec_cascade spec_parallel spec_steady spec_dft spec_tree rsum cis
        map fold_right fst snd Cmult Cplus RtoC Z.add Pos.add Pos.succ Pos.add_carry].
 (* 80 bits suffice except where a sine is evaluated next to a multiple of pi (w = fl(pi), fl(pi)/2 ...):
    Interval obtains sin from cos there and keeps only half of the working precision *)
